@@ -101,6 +101,24 @@ pub fn topic_name(r: &mut Rng, big: bool) -> Vec<u8> {
     t
 }
 
+/// A long (100..400 bytes, occasionally ~64 KiB) topic filter that is well-formed UTF-8 with multi-byte
+/// characters at arbitrary offsets but violates a filter rule; also invalid as a topic name.
+pub fn long_invalid_filter(r: &mut Rng) -> Vec<u8> {
+    let n = if !cfg!(miri) && r.chance(1, 400) { r.range(65_000, 65_520) } else { r.range(100, 400) };
+    let mut t = if n > 1000 {
+        // multi-byte characters throughout, not only in the head
+        let mut s = String::with_capacity(n + 8);
+        while s.len() < n {
+            s.push(*r.pick(&['a', 'é', '€', '𝄞', 'b', '/']));
+        }
+        s.into_bytes()
+    } else {
+        text_exact(r, n)
+    };
+    t.extend_from_slice(*r.pick(&[&b"#x"[..], b"/#/", b"a+", b"\0", b"/a+", b"+b", b"/#/#x"]));
+    t
+}
+
 /// A valid topic filter.
 pub fn topic_filter(r: &mut Rng, big: bool) -> Vec<u8> {
     let mut t = Vec::new();
